@@ -216,7 +216,7 @@ def c18(quick, seed=0):
 
 
 # C04: grammatical seeds, well- and ill-typed, used with every option combination
-C04_SOURCES = ['A + B', 'A + S', 'Foo', 'A.B', 'Fn()', 'Fn(S)', 'Fn(A)', 'not A', 'len(A)', 'all(A, {#})', 'map(Xs, {#.V})', 'nil', 'nil.V', 'Ptr?.Next?.V', 'Ptr?.V',
+C04_SOURCES = ['map(Xs, {nil})', 'one(Xs, {nil})', 'map(Xs, {P ? # : nil})', 'A + B', 'A + S', 'Foo', 'A.B', 'Fn()', 'Fn(S)', 'Fn(A)', 'not A', 'len(A)', 'all(A, {#})', 'map(Xs, {#.V})', 'nil', 'nil.V', 'Ptr?.Next?.V', 'Ptr?.V',
                'A ? 1 : 2', '[1, 2][S]', '{a: 1}.b', 'M.zz', 'Xs[1:S]', 'S matches "["', 'S matches T', '1 / 0', 'A % 0', 'Fn', 'Twice', 'Twice(2)', 'Twice(A)', 'Ptr.V.X', 'X + 1',
                'P ? nil : 1', 'nil == nil', 'Xs[A]', 'S[A:B]', 'A in M', '1 in M', 'P and A', 'count(Xs, {#})', 'filter(Xs, {# > A})', '1 + 2', '-nil', 'Ptr.Next.V', 'Add(A, B)', 'A + 1.5',
                '{(A): 1}', '[nil, A][0].V', 'S.x', 'M[A]', 'Xs["a"]', 'Fn(1 + 1.5)', 'P ? Ptr : nil', 'len(nil)', 'nil in nil', '1..A', 'Xs[:]']
@@ -224,3 +224,44 @@ C04_SOURCES = ['A + B', 'A + S', 'Foo', 'A.B', 'Fn()', 'Fn(S)', 'Fn(A)', 'not A'
 
 C02_CONSTEXPR = ['Pure(2) + A', 'P ? Pure(2) : A', 'Lvl(2)', 'Lvl(2) == Lvl(3)', 'Pure(Pure(1))', 'Pure(1 + 2)', '[Pure(1), Pure(2)][A]', 'Pure(A)', 'Cat("a", "b")', 'Cat("a", "b") + "c"',
                  'Lvl(2).String()', '[Lvl(1)][0]', 'I8(300)', 'I8(1) + A', 'Pure(2) in [Pure(2), 3]', 'P and Pure(3) > A', 'Pure(2) == Pure(2)', 'Lvl(Pure(1))']
+
+
+# C17: (operator form, explicit call form, overload table)
+C17_PAIRS = [
+    ('V + W', 'AddVec(V, W)', 0), ('(V + W) + V', 'AddVec(AddVec(V, W), V)', 0), ('V + (W + V)', 'AddVec(V, AddVec(W, V))', 0),
+    ('A + B', 'A + B', 0), ('A + B * 2', 'A + B * 2', 0), ('[V + W][0]', '[AddVec(V, W)][0]', 0), ('Xs[0] + V', 'AddVec(Xs[0], V)', 0),
+    ('(P ? V : W) + V', 'AddVec(P ? V : W, V)', 0), ('P ? V + W : W', 'P ? AddVec(V, W) : W', 0), ('P ? W : V + W', 'P ? W : AddVec(V, W)', 0),
+    ('map(Xs, {# + V})', 'map(Xs, {AddVec(#, V)})', 0), ('map(Xs, {V + #})', 'map(Xs, {AddVec(V, #)})', 0), ('Id(V + W)', 'Id(AddVec(V, W))', 0),
+    ('{a: V + W}.a', '{a: AddVec(V, W)}.a', 0), ('(V + W).X', 'AddVec(V, W).X', 0), ('[V + W, V][0:1]', '[AddVec(V, W), V][0:1]', 0), ('[V, W][A + B]', '[V, W][A + B]', 0),
+    ('[V + W, W][:1]', '[AddVec(V, W), W][:1]', 0), ('[V, W][A + 0:B + 1]', '[V, W][A + 0:B + 1]', 0), ('Xs[A:B][0] + V', 'AddVec(Xs[A:B][0], V)', 0),
+    ('(V + W) == V', 'AddVec(V, W) == V', 0), ('len([V + W])', 'len([AddVec(V, W)])', 0), ('count(Xs, {(# + V).X > A})', 'count(Xs, {AddVec(#, V).X > A})', 0),
+    ('filter(Xs, {(# + #).X > 0})', 'filter(Xs, {AddVec(#, #).X > 0})', 0), ('not ((V + W).X > A)', 'not (AddVec(V, W).X > A)', 0), ('(V + W).X + A', 'AddVec(V, W).X + A', 0),
+    ('V + W', 'AddVec(V, W)', 1), ('V + A', 'AddMixed(V, A)', 1), ('(V + A) + W', 'AddVec(AddMixed(V, A), W)', 1), ('V + (A + B)', 'AddMixed(V, A + B)', 1), ('A + B', 'A + B', 1),
+    ('V + W', 'AddIface(V, W)', 2), ('(V + W) + V', 'AddIface(AddIface(V, W), V)', 2), ('A + B', 'A + B', 2),
+    ('V + W', 'Plus(V, W)', 3), ('map(Xs, {# + V})', 'map(Xs, {Plus(#, V)})', 3), ('A + B', 'A + B', 3),
+    ('V + W - V', 'SubVec(AddVec(V, W), V)', 4), ('V - W == W + V', 'EqVec(SubVec(V, W), AddVec(W, V))', 4), ('A - B == A + B', 'A - B == A + B', 4), ('V == W', 'EqVec(V, W)', 4),
+    ('V + W', 'AddVec(V, W)', 5), ('V + A', 'AddMixed(V, A)', 5),
+]
+
+
+# C03: ill-typed faults (one documented rule each) and the contexts they are placed in
+C03_FAULTS = [
+    # mismatched operand types
+    'A + S', 'S - A', 'P and A', 'A or P', 'not A', '-S', 'A < S', 'S contains A', 'A matches S', 'A..S', 'F % A', 'P + P', 'S * 2', 'Xs + 1', 'A == S', 'P == A', '-P', 'not S', 'S > 1', 'A startsWith S',
+    # unknown name, field, method, function
+    'Foo', 'Ptr.Zip', 'Ptr.Zip()', 'Zip(A)', 'Ptr.V.W', 'A.x', 'Foo + 1',
+    # arity and argument types
+    'Fn()', 'Fn(A, B)', 'Fn(S)', 'Gn(A)', 'Fn(P)', 'Twice()', 'Twice(S)', 'Gn(A, S)', 'FnF(S)', 'Pf(Xs)',
+    # conditions and predicates
+    'A ? 1 : 2', 'S ? A : B', 'filter(Xs, {#})', 'all(Xs, {# + 1})', 'count(Xs, {S})', 'any(Xs, {A})', 'one(Xs, {nil})', 'none(Xs, {"a"})',
+    # builtin arguments, indexing, slicing
+    'len(A)', 'all(A, {#})', 'map(P, {#})', 'filter(A, {true})', 'count(F, {true})', 'A[0]', 'P[1:2]', 'Xs[S:]', 'Xs[:F]', 'S[P:]', 'A in B', 'A in S', 'len(P)', 'F[0]',
+    '#', 'Xs[P]', 'Xs[F]',
+]
+C03_CONTEXTS = ['{X}', '[{X}]', 'P ? {X} : 0', 'P ? 0 : {X}', 'map(Xs, {{{X}}})', '{{a: {X}}}', '({X}) == nil', 'Xs[A] + A > 0 and ({X}) == nil', 'len([A, {X}])', 'not (({X}) == nil)', '[1, {X}][0:1]', 'Ptr?.V == ({X})']
+C03_WELL = ['A + B', 'S + T', 'P and Q', 'not P', '-A', 'A < B', 'S contains T', 'S matches T', 'A..B', 'A % B', 'Ptr.V', 'Fn(A)', 'Gn(A, B)', 'Twice(A)', 'FnF(F)', 'P ? 1 : 2', 'filter(Xs, {# > 1})',
+            'all(Xs, {# > 1})', 'len(Xs)', 'len(S)', 'len(M)', 'Xs[0]', 'S[1:2]', 'Xs[A:]', 'A in Xs', 'S in M', 'M[S]', 'A == F', 'Ptr == nil', 'S == T', 'FnU8(1)', 'FnF(1)', 'FnF(1 + 2)', 'FnI64(2 * 3)']
+# accepted by the rules but with statically typed operands that cannot work at run time (soundness probes)
+C03_SOUND_EXTRA = ['A in M', 'M[A]', 'Xs[S]', 'Fn(A + 1.5)', 'Fn(-F)', 'Fn(1 + 1.5)', 'Fn(2 / 1)', 'FnU8(A + 1)', 'FnF(A + 1)', 'FnF(1 + A)', 'FnI64(A * 2)', 'Fn(1.5 + 2)', 'Fn(I64 + 1)', 'S in Xs', 'P in Xs', 'A in Ss', 'S[S]', 'Ptr["V"]', 'Ptr[S]', 'M.a + S',
+                   'U8 in Xs', 'F in Xs', 'I64 == A', 'Xs[U8]', 'Xs[I64]', 'Xs[F]', 'M[S] + A', 'Xss[0][A]', 'Ss[A] + S', 'filter(Xs, {# > A})', 'map(Xs, {# * 2})', 'map(Xs, {# > A})', 'filter(Ss, {# == S})', 'map(Ss, {len(#)})',
+                   'count(Xs, {# > A}) + 1', 'A..B', '1..3', '[A, B]', '{a: A}', 'P ? A : F', 'P ? A : nil', 'P ? nil : A', 'Ptr?.V', 'Ptr?.Next', 'A ** B', 'A / B', 'U8 + A', 'U8 * U8', 'F + A', 'I64 % A', '-U8', 'len(S) + A']
